@@ -140,28 +140,49 @@ func (cr *CrashRun) PendingUnstable(k int) int {
 }
 
 type ImageOpts struct {
-	Suffix   bool // run further operations on the recovered server
+	Suffix bool // run further operations on the recovered server
 	// SuffixIfTruncatedData: run them also whenever the recovered state has a file that once
 	// held data beyond its current size (the case in which stale blocks could resurface)
 	SuffixIfTruncatedData bool
-	Recrash  bool // crash again at every point of the recovery's own writes
-	Fsck     func(s *Srv) error
+	Recrash               bool // crash again at every point of the recovery's own writes
+	Fsck                  func(s *Srv) (*FsckReport, error)
+	// NoPrefixOracle: only the structural check is applied (C04/C05/C12 attribute failures to their own oracle)
+	NoPrefixOracle bool
+	// After runs on the recovered server after the other checks (C05: delete everything and count)
+	After    func(s *Srv, state *Model) error
 	Watchdog time.Duration
 }
 
 // CheckImage recovers img with the real server and applies the prefix oracle.
 // It returns the index of the matched timeline entry.
-func (cr *CrashRun) CheckImage(img *Disk, k int, opts ImageOpts) (int, error) {
+func (cr *CrashRun) CheckImage(img *Disk, k int, opts ImageOpts) (int, *FsckReport, error) {
 	lo, hi := cr.Window(k)
 	if opts.Watchdog == 0 {
 		opts.Watchdog = 60 * time.Second
 	}
 	matched := -1
 	var rerr error
+	var rep *FsckReport
 	o := Guard(opts.Watchdog, func() {
 		s := StartSrv(img, cr.Unstable, false)
 		defer s.Stop()
 		var errs []string
+		if opts.NoPrefixOracle {
+			// find the matching prefix quietly (needed by After), without judging
+			for j := hi; j >= lo; j-- {
+				if CompareTree(s.API(), cr.TL[j].State, false) == nil {
+					matched = j
+					break
+				}
+			}
+			if opts.Fsck != nil {
+				rep, rerr = opts.Fsck(s)
+			}
+			if rerr == nil && opts.After != nil && matched >= 0 {
+				rerr = opts.After(s, cr.TL[matched].State)
+			}
+			return
+		}
 		for j := hi; j >= lo; j-- {
 			if j < hi && cr.TL[j].State == cr.TL[j+1].State {
 				continue
@@ -179,7 +200,8 @@ func (cr *CrashRun) CheckImage(img *Disk, k int, opts ImageOpts) (int, error) {
 			return
 		}
 		if opts.Fsck != nil {
-			if err := opts.Fsck(s); err != nil {
+			var err error
+			if rep, err = opts.Fsck(s); err != nil {
 				rerr = fmt.Errorf("recovered to the state after entry %d, but: %v", matched, err)
 				return
 			}
@@ -196,10 +218,10 @@ func (cr *CrashRun) CheckImage(img *Disk, k int, opts ImageOpts) (int, error) {
 		}
 	})
 	if o.Bad() {
-		return -1, fmt.Errorf("recovery: %v", o)
+		return -1, nil, fmt.Errorf("recovery: %v", o)
 	}
 	if rerr != nil {
-		return matched, rerr
+		return matched, rep, rerr
 	}
 	if opts.Recrash && !opts.Suffix {
 		rt := img.Trace()
@@ -217,17 +239,17 @@ func (cr *CrashRun) CheckImage(img *Disk, k int, opts ImageOpts) (int, error) {
 					err2 = CompareTree(s.API(), cr.TL[matched].State, true)
 				})
 				if o.Bad() {
-					return matched, fmt.Errorf("second crash during recovery (after %d of its %d events, %s): %v", k2, len(rt), v.Name, o)
+					return matched, rep, fmt.Errorf("second crash during recovery (after %d of its %d events, %s): %v", k2, len(rt), v.Name, o)
 				}
 				if err2 != nil {
-					return matched, fmt.Errorf("second crash during recovery (after %d of its %d events, %s): the state moved away from entry %d: %v",
+					return matched, rep, fmt.Errorf("second crash during recovery (after %d of its %d events, %s): the state moved away from entry %d: %v",
 						k2, len(rt), v.Name, matched, err2)
 				}
 				St.Class("recrash_images")
 			}
 		}
 	}
-	return matched, nil
+	return matched, rep, nil
 }
 
 // serveSuffix runs a fixed little workload on a recovered server under the sequential oracle.
